@@ -5,3 +5,4 @@ pub mod css;
 pub mod num;
 pub mod sassval;
 pub mod sel;
+pub mod interp;
